@@ -111,6 +111,41 @@ CHECKS = {
             'and an engaged user must have been told.',
             'Simulated time; exhaustive over the corpus of conversations, not over all conversations.',
             'simnet', 'DESIGN.md#C13'),
+    'C14': (True, 'exploration',
+            'enumeration of standard reject/abort values and event positions + Hypothesis over the byte ranges, on a scripted provider',
+            'Every standard (result, source, reason) triple and abort (source, reason) pair, generated values over '
+            '0-255, four positions of the event (before, between, inside a half-consumed C-FIND stream, during a '
+            'multi-fragment C-STORE), five ways of leaving request_association: the PDUs handed to the provider '
+            'and the exception type/fields seen by the caller are compared with what the other side did.',
+            'Scripted provider (vf/fakedul.py); what the provider itself does with these PDUs is C04/C05.',
+            'fakedul', 'DESIGN.md#C14'),
+    'C16': (True, 'exploration',
+            'Hypothesis over match sequences, identifiers, transfer syntaxes and PDU sizes; provider and user side against independent codecs',
+            'Generated match sequences (0-12, both pending codes) and identifiers run through qr_find_scp / '
+            'modality_work_list_scp (responses read from wire bytes: count, order, statuses, identifiers, one '
+            'final response without data set, query delivered unchanged) and through qr_find_scu / '
+            'modality_work_list_scu / c_find() against a scripted peer (exact pairs in order, stop after the first '
+            'non-pending status, receive() calls counted).',
+            'Scripted provider; data sets compared by canonical re-encoding with pydicom.', 'fakedul', 'DESIGN.md#C16'),
+    'C17': (True, 'exploration',
+            'one Hypothesis search per provider callable (collect-then-shrink), reference-encoded requests, responses read from wire bytes',
+            'verification_scp, storage_scp, qr_find_scp, modality_work_list_scp, qr_move_scp, StorageCommitment '
+            'n_action (+ its N-EVENT-REPORT on the sub-association) and n_event_report are driven with generated '
+            'message ids (16-bit boundaries enumerated), UIDs, context ids and handler outcomes incl. '
+            'EventHandlingError; every response must be of the matching type, on the arrival context, with the '
+            'message id of the request / SOP class / instance and the right status, and every request must be answered.',
+            'Where no failure status is documented for EventHandlingError any Failure-class status is accepted.',
+            'fakedul', 'DESIGN.md#C17'),
+    'C19': (True, 'exploration',
+            'exhaustive outcome strings for 0-4 sub-operations + Hypothesis for longer ones and for C-GET peer scripts; wire-level oracle on both associations',
+            'C-MOVE provider: all 3^n outcome strings for n<=4 and sampled n<=8, default handler; the destination '
+            'association must see exactly the supplied instances once, in order, at the designated AE, and the '
+            'primary association a pending response after every sub-operation with true counters, then exactly '
+            'one final response. C-GET user: scripted peers interleaving stores and pending responses; one '
+            'correlated C-STORE-RSP per request, each instance handed to the caller once and in order, iteration '
+            'ends exactly at the final response.',
+            '"performed" = completed or completed+failed+warning; final C-MOVE status unconstrained.',
+            'fakedul', 'DESIGN.md#C19'),
     'C18': (True, 'exploration',
             'exhaustive enumeration against an independent status table + metamorphic precedence test',
             'All 65536 codes x 24 command choices are constructed and compared with a table '
